@@ -110,7 +110,7 @@ var containerTags = []string{"textarea", "title", "pre", "option", "td", "li", "
 // element, no attribute) and the canary are asserted for them.
 var rawTextTags = map[string]bool{"xmp": true, "iframe": true, "noembed": true, "noframes": true}
 
-var sinks = []string{"in:textarea", "in:title", "in:pre", "in:option", "in:td", "in:li", "in:button", "in:h1", "in:a", "in:label", "in:code", "in:summary", "in:noscript", "in:xmp", "in:iframe", "in:noembed", "in:noframes", "nsattr", "pretext", "prevtext", "preattr", "prebound", "boundmustache", "boundmustacheclass", "text", "vtext", "attr", "bound", "vbind", "class", "style", "loop", "loopattr", "loopchild", "incstatic", "incbound", "incattr", "inctplroot", "inctplrootattr", "slotinc", "slotincplain", "slotprop", "layout", "layoutattr", "ifself", "elseself"}
+var sinks = []string{"in:textarea", "in:title", "in:pre", "in:option", "in:td", "in:li", "in:button", "in:h1", "in:a", "in:label", "in:code", "in:summary", "in:noscript", "in:xmp", "in:iframe", "in:noembed", "in:noframes", "nsattr", "pretext", "prevtext", "preattr", "prebound", "boundmustache", "boundmustacheclass", "vtext:xmp", "vtext:iframe", "vtext:noembed", "vtext:noframes", "vtext:textarea", "vtext:title", "vtext:noscript", "text", "vtext", "attr", "bound", "vbind", "class", "style", "loop", "loopattr", "loopchild", "incstatic", "incbound", "incattr", "inctplroot", "inctplrootattr", "slotinc", "slotincplain", "slotprop", "layout", "layoutattr", "ifself", "elseself"}
 var encs = []string{"bare", "if", "else", "tplif", "nested", "loopchild", "elseif"}
 
 // tokens: the hostile alphabet. The first coreN are enumerated exhaustively.
@@ -171,6 +171,11 @@ func build(c Case) program {
 			open, close = `<details><summary data-m="s">`, `</summary></details>`
 		}
 		return program{tpl: wrap(c.Enc, open+n.LS+`{{ v }}`+n.RS+close), useNb: true, rawish: rawTextTags[tag]}
+	}
+	if strings.HasPrefix(c.Sink, "vtext:") {
+		// v-text on the special containers (raw text, RCDATA, noscript)
+		tag := strings.TrimPrefix(c.Sink, "vtext:")
+		return program{tpl: wrap(c.Enc, "<"+tag+` data-m="s" v-text="v">old</`+tag+">"), rawish: rawTextTags[tag]}
 	}
 	p := buildSink(c, n)
 	if p.files != nil {
@@ -489,6 +494,12 @@ func TestProp(t *testing.T) {
 	}
 	for _, tag := range containerTags {
 		values = append(values, "</"+tag+"><img src=x onerror=a>", "a</"+tag+"><script>alert(1)</script>")
+		// end tags are matched case-insensitively by parsers: mixed and upper case spellings
+		mixed := strings.ToUpper(tag[:1]) + tag[1:]
+		if len(tag) > 2 {
+			mixed = tag[:1] + strings.ToUpper(tag[1:2]) + tag[2:]
+		}
+		values = append(values, "</"+strings.ToUpper(tag)+"><img src=x onerror=a>", "</"+mixed+"><img src=x onerror=a>", "</"+strings.ToUpper(tag[:1])+tag[1:]+" ><b id=i>")
 	}
 	i := 0
 	ok := true
